@@ -518,7 +518,7 @@ NvmModule *nvm_deserialize(const uint8_t *data, uint32_t size) {
         uint32_t sec_offset = le_read_u32(data + dir_off + 4);
         uint32_t sec_size   = le_read_u32(data + dir_off + 8);
 
-        if (sec_offset + sec_size > size) {
+        if ((uint64_t)sec_offset + sec_size > size) {
             nvm_module_free(mod);
             return NULL;
         }
@@ -535,7 +535,7 @@ NvmModule *nvm_deserialize(const uint8_t *data, uint32_t size) {
                 while (pos + 4 <= sec_size) {
                     uint32_t slen = le_read_u32(sec_data + pos);
                     pos += 4;
-                    if (pos + slen > sec_size) break;
+                    if (slen > sec_size - pos) break;
                     nvm_add_string(mod, (const char *)(sec_data + pos), slen);
                     pos += slen;
                 }
